@@ -25,6 +25,8 @@ func init() {
 }
 
 func runC04(c *eng.Ctx, thorough bool) {
+	// ---- C04.5 a revoked/expired token never comes back from lookup (the C02.2 reader-side checks)
+	tokenLiveness(c, "C04.5")
 	if f := c.Fn("vault.(*TokenStore).revokeInternal"); f != nil {
 		entry := `vault\.\(\*TokenStore\)\.lookupInternal\(\)#0`
 		// the deferred closure that deletes the primary entry
